@@ -26,7 +26,9 @@ def run_demo(demo):
     if demo == "-":
         return None
     env = dict(os.environ, PYTHONPATH=REPO, PYTHONDONTWRITEBYTECODE="1")
-    rc, out = sh(["/venv/bin/python", demo], cwd=REPO, env=env, timeout=600)
+    # run the script without putting its own directory (a worktree with its own testtools) first
+    code = "import runpy, sys; sys.argv=[%r]; runpy.run_path(%r, run_name='__main__')" % (demo, demo)
+    rc, out = sh(["/venv/bin/python", "-c", code], cwd=REPO, env=env, timeout=600)
     return rc
 
 
